@@ -1,4 +1,7 @@
 import YaqsModel.Lemmas.Index
+import YaqsModel.Lemmas.MasterEq
+import Mathlib.Data.Complex.Basic
+import Mathlib.Tactic.NormNum
 import Mathlib.Algebra.BigOperators.Group.List.Basic
 
 /-!
@@ -295,3 +298,319 @@ example : ((embedF 4 0 2 (ofList 2 2 [1, 2, 3, 4] : Mat Int) (ofList 2 2 [5, 6, 
     fun M => (M.e 8 2, M.e 9 3, M.e 8 3)) = some (18, 18, 0) := by decide
 
 end Yaqs.Index
+
+/-!
+# C06, extension — the *content* of the Lindblad and MCWF solvers ("describe the same system")
+
+The theorems below are about `Model.MasterEq` (the accumulation `lindblad_rhs` performs, which processes become jump
+operators, `H_eff`, one pass of the MCWF loop).  The polymorphic definitions `lindbladRhs`, `lDagLSum`, `heff`,
+`jumpOps` are instantiated on Mathlib matrices `Matrix n n R` over an arbitrary commutative star ring `R`
+(`matrixOps i h rate`; ℂ and the Gaussian rationals are instances), where `i` plays the imaginary unit, `h` one half
+and `rate : Rat → R` embeds the strengths; each theorem lists which of `star i = -i`, `i * i = -1`, `h + h = 1`,
+`star h = h`, `star (rate q) = rate q` it needs.  The driver runs the *same* definitions on `listOps n`
+(`List (List CRat)`), and the correspondence check compares them entrywise with the real `lindblad_rhs` closure,
+`l_dag_l_sum`, `preprocess_mcwf(...).heff/.jump_ops` and one forced pass of `mcwf`.
+-/
+namespace Yaqs.MasterEq
+
+open Matrix Yaqs.Dist
+
+variable {n : Type} [Fintype n] {R : Type} [CommRing R] [StarRing R]
+
+/-- **C06.6 `lindblad_rhs_is_lindbladian`** (`lindblad` steps 3–4 and `lindblad_rhs`) For every Hamiltonian, state and
+    process list: what the code accumulates — `-1j*(Hρ-ρH)`, then `+= LρL†` per kept operator, then one subtraction of
+    `0.5*{Σ L†L, ρ}` — is the Lindbladian in standard form `-i[H,ρ] + Σ_k γ_k (L_k ρ L_k† − ½{L_k†L_k, ρ})` in which
+    * the same `k` appears in `L_k ρ L_k†` and in `L_k†L_k` (one `dissipator` per process),
+    * every process of the list with strength `> 0` contributes exactly once with its own rate, and every process with
+      strength `≤ 0` contributes with coefficient `0` (first conjunct: a sum over the *whole* list),
+    * the kept operators are a sub-list (same order) of the process list, characterised by membership and positivity. -/
+theorem lindblad_rhs_is_lindbladian (i h : R) (rate : Rat → R) (H ρ : Matrix n n R)
+    (procs : List (Proc (Matrix n n R))) :
+    lindbladOfProcs (matrixOps i h rate) H procs ρ
+        = (-i) • (H * ρ - ρ * H)
+          + (procs.map fun p => (if 0 < p.gamma then rate p.gamma else 0) • dissipator h p.op ρ).sum
+    ∧ lindbladOfProcs (matrixOps i h rate) H procs ρ = lindbladian i h rate H (jumpOps procs) ρ
+    ∧ (jumpOps procs).Sublist procs
+    ∧ ∀ p, p ∈ jumpOps procs ↔ p ∈ procs ∧ 0 < p.gamma := by
+  refine ⟨?_, lindbladRhs_matrix i h rate H (jumpOps procs) ρ, List.filter_sublist, ?_⟩
+  · unfold lindbladOfProcs
+    rw [lindbladRhs_matrix, lindbladian, jumpOps, sum_filter_eq_sum_ite]
+    congr 2
+    apply List.map_congr_left
+    intro p _
+    by_cases hp : 0 < p.gamma <;> simp [hp]
+  · intro p
+    simp [jumpOps, List.mem_filter]
+
+/-- **C06.6b `sqrt_scaling_equiv`** (`jump_ops.append(np.sqrt(strength) * op_full)`) The literal code works with
+    pre-scaled operators `J_k = r_k·L_k` and no rate; whenever `r_k` is real and `r_k·r_k = γ_k` (what `np.sqrt`
+    delivers up to rounding) this is the model's accumulation with the rate `γ_k` carried next to `L_k` — for the
+    right-hand side and for `l_dag_l_sum`. -/
+theorem sqrt_scaling_equiv (i h : R) (rate : Rat → R) (H ρ : Matrix n n R) (Ls : List (Proc (Matrix n n R)))
+    (r : Proc (Matrix n n R) → R) (hr : ∀ p ∈ Ls, star (r p) = r p ∧ r p * r p = rate p.gamma) :
+    lindbladRhsJ (matrixOps i h rate) H (Ls.map fun p => r p • p.op) ρ = lindbladRhs (matrixOps i h rate) H Ls ρ
+    ∧ lDagLSumJ (matrixOps i h rate) (Ls.map fun p => r p • p.op) = lDagLSum (matrixOps i h rate) Ls := by
+  have hS : lDagLSumJ (matrixOps i h rate) (Ls.map fun p => r p • p.op) = lDagLSum (matrixOps i h rate) Ls := by
+    unfold lDagLSumJ lDagLSum
+    simp only [matrixOps, List.foldl_map]
+    rw [foldl_add_eq_sum (fun p : Proc (Matrix n n R) => (r p • p.op)ᴴ * (r p • p.op)) Ls,
+      foldl_add_eq_sum (fun p : Proc (Matrix n n R) => rate p.gamma • (p.opᴴ * p.op)) Ls]
+    congr 2
+    apply List.map_congr_left
+    intro p hp
+    obtain ⟨h1, h2⟩ := hr p hp
+    rw [conjTranspose_smul, h1, Matrix.smul_mul, Matrix.mul_smul, smul_smul, h2]
+  refine ⟨?_, hS⟩
+  unfold lindbladRhsJ lindbladRhs
+  rw [hS]
+  simp only [matrixOps, List.foldl_map]
+  rw [foldl_add_eq_sum (fun p : Proc (Matrix n n R) => (r p • p.op) * ρ * (r p • p.op)ᴴ) Ls,
+    foldl_add_eq_sum (fun p : Proc (Matrix n n R) => rate p.gamma • (p.op * ρ * p.opᴴ)) Ls]
+  congr 3
+  apply List.map_congr_left
+  intro p hp
+  obtain ⟨h1, h2⟩ := hr p hp
+  rw [conjTranspose_smul, h1, Matrix.smul_mul, Matrix.smul_mul, Matrix.mul_smul, smul_smul, h2]
+
+/-- **C06.7 `lindblad_trace_preserving`** `Tr(lindblad_rhs(ρ)) = 0` for every `ρ` (Hermitian or not), every `H` and
+    every list of operators and rates — the integrator never changes `Tr ρ` through the right-hand side.  Needs only
+    that `0.5 + 0.5 = 1`; dropping the `0.5` or a dagger breaks it. -/
+theorem lindblad_trace_preserving (i h : R) (hh : h + h = 1) (rate : Rat → R) (H ρ : Matrix n n R)
+    (Ls procs : List (Proc (Matrix n n R))) :
+    trace (lindbladRhs (matrixOps i h rate) H Ls ρ) = 0
+    ∧ trace (lindbladOfProcs (matrixOps i h rate) H procs ρ) = 0 := by
+  have key : ∀ Ls : List (Proc (Matrix n n R)), trace (lindbladRhs (matrixOps i h rate) H Ls ρ) = 0 := by
+    intro Ls
+    rw [lindbladRhs_matrix, lindbladian, trace_add, trace_smul, trace_sub, trace_mul_comm H ρ, sub_self, smul_zero,
+      zero_add, trace_list_sum, List.map_map]
+    apply List.sum_eq_zero
+    intro x hx
+    obtain ⟨p, _, rfl⟩ := List.mem_map.mp hx
+    simp [trace_smul, trace_dissipator h hh]
+  exact ⟨key Ls, key _⟩
+
+/-- **C06.8 `lindblad_hermiticity`** `H` Hermitian and `ρ` Hermitian ⇒ `lindblad_rhs(ρ)` Hermitian (so a Hermitian
+    initial `ρ` stays Hermitian along the exact flow and `Tr(Oρ)` of a Hermitian observable stays real — the code
+    keeps only `.real`).  Needs `star i = -i`, `0.5` real and real rates. -/
+theorem lindblad_hermiticity (i h : R) (hi : star i = -i) (hs : star h = h) (rate : Rat → R)
+    (hr : ∀ q, star (rate q) = rate q) (H ρ : Matrix n n R) (hH : Hᴴ = H) (hρ : ρᴴ = ρ)
+    (Ls : List (Proc (Matrix n n R))) :
+    (lindbladRhs (matrixOps i h rate) H Ls ρ)ᴴ = lindbladRhs (matrixOps i h rate) H Ls ρ := by
+  rw [lindbladRhs_matrix, lindbladian, conjTranspose_add, conjTranspose_smul, conjTranspose_sub, conjTranspose_mul,
+    conjTranspose_mul, hH, hρ, star_neg, hi, neg_neg, conjTranspose_list_sum, List.map_map]
+  congr 1
+  · rw [← neg_sub (H * ρ) (ρ * H), smul_neg, neg_smul]
+  · congr 1
+    apply List.map_congr_left
+    intro p _
+    simp [conjTranspose_smul, hr, conjTranspose_dissipator h hs p.op ρ hρ]
+
+/-- **C06.9 `lindblad_order_independent`** permuting `noise_model.processes` does not change the right-hand side
+    (nor `l_dag_l_sum`, hence nor `H_eff`): the solvers' answer cannot depend on the order in which the user lists
+    the processes. -/
+theorem lindblad_order_independent (i h : R) (rate : Rat → R) (H ρ : Matrix n n R)
+    (procs procs' : List (Proc (Matrix n n R))) (hp : procs.Perm procs') :
+    lindbladOfProcs (matrixOps i h rate) H procs ρ = lindbladOfProcs (matrixOps i h rate) H procs' ρ
+    ∧ heffOfProcs (matrixOps i h rate) H procs = heffOfProcs (matrixOps i h rate) H procs' := by
+  have hf : (jumpOps procs).Perm (jumpOps procs') := hp.filter _
+  constructor
+  · unfold lindbladOfProcs
+    rw [lindbladRhs_matrix, lindbladRhs_matrix, lindbladian, lindbladian]
+    congr 1
+    exact (hf.map _).sum_eq
+  · unfold heffOfProcs
+    rw [heff_matrix, heff_matrix]
+    congr 2
+    exact (hf.map _).sum_eq
+
+/-- **C06.10 `heff_antihermitian_part`** (`preprocess_mcwf` step 4 and the no-jump propagation of `mcwf`)
+    For Hermitian `H` and real rates, `H_eff = H − (i/2) Σ γ_k L_k†L_k` has anti-Hermitian part
+    `H_eff − H_eff† = −i Σ γ_k L_k†L_k`; consequently, along `dψ/dt = −i H_eff ψ`,
+    `d/dt ⟨ψ|ψ⟩ = ⟨−iH_eff ψ|ψ⟩ + ⟨ψ|−iH_eff ψ⟩ = − Σ_k γ_k ‖L_k ψ‖²` (third conjunct; `≤ 0` because every kept
+    `γ_k > 0`, see `mcwf_step_mass` for the sign on the executable model).  So to first order in `dt` the jump
+    probability `1 − ‖ψ_next‖²` is `dt · Σ_k γ_k ‖L_k ψ‖²` — `dt` times the sum of exactly the weights
+    `jumpWeights` the code draws the jump from, which is the normaliser of the TJM lottery of C01
+    (`Yaqs.Lottery.mcwfWeights`, linked in `mcwf_step_is_c01_lottery`).  The second conjunct is the closed form of
+    what the code builds (both branches of `if jump_ops:`). -/
+theorem heff_antihermitian_part (i h : R) (hi : star i = -i) (hii : i * i = -1) (hh : h + h = 1) (hs : star h = h)
+    (rate : Rat → R) (hr : ∀ q, star (rate q) = rate q) (H : Matrix n n R) (hH : Hᴴ = H)
+    (Ls : List (Proc (Matrix n n R))) (ψ : n → R) :
+    heff (matrixOps i h rate) H Ls - (heff (matrixOps i h rate) H Ls)ᴴ = (-i) • gammaSum rate Ls
+    ∧ heff (matrixOps i h rate) H Ls = H - (h * i) • gammaSum rate Ls
+    ∧ star (((-i) • heff (matrixOps i h rate) H Ls) *ᵥ ψ) ⬝ᵥ ψ + star ψ ⬝ᵥ (((-i) • heff (matrixOps i h rate) H Ls) *ᵥ ψ)
+        = - (Ls.map fun p => rate p.gamma * (star (p.op *ᵥ ψ) ⬝ᵥ (p.op *ᵥ ψ))).sum := by
+  have hS := conjTranspose_gammaSum rate hr Ls
+  have h1 : heff (matrixOps i h rate) H Ls - (heff (matrixOps i h rate) H Ls)ᴴ = (-i) • gammaSum rate Ls := by
+    rw [heff_matrix, conjTranspose_sub, conjTranspose_smul, hH, hS, star_mul, hi, hs]
+    have : H - (h * i) • gammaSum rate Ls - (H - (-i * h) • gammaSum rate Ls)
+        = (-((h + h) * i)) • gammaSum rate Ls := by
+      rw [neg_smul, add_mul, add_smul, neg_mul, neg_smul, mul_comm i h]
+      abel
+    rw [this, hh, one_mul]
+  refine ⟨h1, heff_matrix i h rate H Ls, ?_⟩
+  set E := heff (matrixOps i h rate) H Ls with hE
+  rw [star_mulVec, ← dotProduct_mulVec, ← dotProduct_add, ← Matrix.add_mulVec, conjTranspose_smul, star_neg, hi, neg_neg]
+  have : i • Eᴴ + (-i) • E = -gammaSum rate Ls := by
+    have h2 : Eᴴ = E - (-i) • gammaSum rate Ls := by rw [← h1]; abel
+    rw [h2, smul_sub, smul_smul, mul_neg, hii, neg_neg, one_smul, neg_smul]
+    abel
+  rw [this, Matrix.neg_mulVec, dotProduct_neg, dot_gammaSum]
+
+/-- **C06.10b `mcwf_step_is_c01_lottery`** the outcome distribution of one MCWF pass on dense data is the lottery
+    `Yaqs.Lottery.mcwfLottery` that C01 is about, for any abstract process list whose weights
+    `γ_k·‖L_k ψ‖²` are the dense `jumpWeights` of this model — the normaliser is the same number
+    `Σ_k γ_k ‖L_k ψ‖²` that `heff_antihermitian_part` identifies as the norm-decay rate. -/
+theorem mcwf_step_is_c01_lottery (m : Nat) (Ls : List (Proc CMat)) (ψ ψnext : CVec)
+    (lp : List Lottery.Proc) (nrm : Lottery.Proc → Rat)
+    (hw : Lottery.mcwfWeights nrm lp = jumpWeights m Ls ψ) :
+    mcwfStepDist m Ls ψ ψnext = Lottery.mcwfLottery (vnormSq ψnext) nrm lp := by
+  unfold mcwfStepDist Lottery.mcwfLottery Lottery.mcwfProbVector
+  rw [hw]
+  by_cases hlt : (jumpWeights m Ls ψ).sum < Lottery.mcwfEps <;> simp [hlt]
+
+/-- **C06.11 `mcwf_step_mass`** (one pass of the `mcwf` loop) the branch probabilities — no jump, jump `k` with the
+    weights `γ_k‖L_k ψ‖²/Σ` taken from the state at the START of the step, or the `normalization_sum < 1e-15`
+    fall-back — sum to one for every input, and are non-negative as soon as the kept strengths are `≥ 0` (they are
+    `> 0` after `jumpOps`); third conjunct: the normaliser `Σ_k γ_k‖L_kψ‖²` is `≥ 0`, i.e. the norm-decay rate of
+    `heff_antihermitian_part` has the right sign (`d/dt⟨ψ|ψ⟩ ≤ 0`). -/
+theorem mcwf_step_mass (m : Nat) (Ls : List (Proc CMat)) (ψ ψnext : CVec) :
+    mass (mcwfStepDist m Ls ψ ψnext) = 1
+    ∧ ((∀ p ∈ Ls, 0 ≤ p.gamma) → NonNeg (mcwfStepDist m Ls ψ ψnext))
+    ∧ ((∀ p ∈ Ls, 0 ≤ p.gamma) → 0 ≤ (jumpWeights m Ls ψ).sum) := by
+  refine ⟨?_, ?_, fun hg => ?_⟩
+  rotate_left 2
+  · have hw := jumpWeights_nonneg m Ls ψ hg
+    have := Lottery.sum_map_nonneg (jumpWeights m Ls ψ) id (fun a ha => hw a ha)
+    simpa using this
+  all_goals unfold mcwfStepDist
+  · by_cases hlt : (jumpWeights m Ls ψ).sum < Lottery.mcwfEps
+    · simp [hlt, mass]
+    · simp only [hlt, if_false]
+      have hpos : (0 : Rat) < Lottery.mcwfEps := by decide +kernel
+      have hW : 0 < (jumpWeights m Ls ψ).sum := lt_of_lt_of_le hpos (not_lt.mp hlt)
+      rw [Lottery.mass_lottery, Lottery.sum_map_div, div_self (ne_of_gt hW)]
+      ring
+  · intro hg
+    by_cases hlt : (jumpWeights m Ls ψ).sum < Lottery.mcwfEps
+    · simp [hlt, NonNeg]
+    · simp only [hlt, if_false]
+      have hpos : (0 : Rat) < Lottery.mcwfEps := by decide +kernel
+      have hW : 0 < (jumpWeights m Ls ψ).sum := lt_of_lt_of_le hpos (not_lt.mp hlt)
+      have hw := jumpWeights_nonneg m Ls ψ hg
+      refine ⟨by have := Lottery.jumpProb_le_one (vnormSq ψnext); linarith, ?_⟩
+      apply Lottery.nonNeg_jumpBranches _ (Lottery.jumpProb_nonneg _)
+      intro q hq
+      obtain ⟨w, hwm, rfl⟩ := List.mem_map.mp hq
+      exact div_nonneg (hw w hwm) (le_of_lt hW)
+
+/-- **C06.12 `observable_is_trace`** (`np.trace(op_mat @ rho_t)` in `lindblad`, `np.vdot(psi, op_mat.dot(psi))` in
+    `mcwf`) for a pure state `ρ = |ψ⟩⟨ψ|`: `Tr(O ρ) = ⟨ψ|O|ψ⟩` — the Lindblad solver and the MCWF solver report
+    the same quantity for the same state. -/
+theorem observable_is_trace (O : Matrix n n R) (ψ : n → R) :
+    trace (O * vecMulVec ψ (star ψ)) = star ψ ⬝ᵥ (O *ᵥ ψ) := by
+  rw [mul_vecMulVec, trace_vecMulVec, dotProduct_comm]
+
+/-- **C06.10c `first_order_jump_probability`** the exact expansion behind "the jump probability is `dt·Σ γ_k‖L_kψ‖²` to
+    first order": for the Euler step `ψ₁ = ψ − i·dt·H_eff ψ` (real `dt`),
+    `⟨ψ₁|ψ₁⟩ = ⟨ψ|ψ⟩ − dt·Σ_k γ_k‖L_kψ‖² + dt²·‖H_eff ψ‖²`; `exp(−i H_eff dt)ψ` (what `expm_arnoldi` approximates)
+    differs from `ψ₁` by `O(dt²)`, which is the analytic step not formalised here. -/
+theorem first_order_jump_probability (i h : R) (hi : star i = -i) (hii : i * i = -1) (hh : h + h = 1) (hs : star h = h)
+    (rate : Rat → R) (hr : ∀ q, star (rate q) = rate q) (H : Matrix n n R) (hH : Hᴴ = H)
+    (Ls : List (Proc (Matrix n n R))) (ψ : n → R) (dt : R) (hdt : star dt = dt) :
+    star (ψ + dt • (((-i) • heff (matrixOps i h rate) H Ls) *ᵥ ψ)) ⬝ᵥ (ψ + dt • (((-i) • heff (matrixOps i h rate) H Ls) *ᵥ ψ))
+      = star ψ ⬝ᵥ ψ - dt * (Ls.map fun p => rate p.gamma * (star (p.op *ᵥ ψ) ⬝ᵥ (p.op *ᵥ ψ))).sum
+        + dt * dt * (star (heff (matrixOps i h rate) H Ls *ᵥ ψ) ⬝ᵥ (heff (matrixOps i h rate) H Ls *ᵥ ψ)) := by
+  obtain ⟨_, _, h3⟩ := heff_antihermitian_part i h hi hii hh hs rate hr H hH Ls ψ
+  set E := heff (matrixOps i h rate) H Ls
+  set v := ((-i) • E) *ᵥ ψ with hv
+  have hq : star v ⬝ᵥ v = star (E *ᵥ ψ) ⬝ᵥ (E *ᵥ ψ) := by
+    have hsv : star ((-i) • (E *ᵥ ψ)) = i • star (E *ᵥ ψ) := by
+      funext a
+      simp [hi]
+    rw [hv, Matrix.smul_mulVec, hsv, smul_dotProduct, dotProduct_smul, smul_smul, mul_neg, hii, neg_neg, one_smul]
+  have hst : star (ψ + dt • v) = star ψ + dt • star v := by
+    funext a
+    simp [hdt]
+  rw [hst, add_dotProduct, dotProduct_add, dotProduct_add, smul_dotProduct, smul_dotProduct,
+    dotProduct_smul, dotProduct_smul, hq]
+  simp only [smul_eq_mul]
+  have h3' : star v ⬝ᵥ ψ = -(Ls.map fun p => rate p.gamma * (star (p.op *ᵥ ψ) ⬝ᵥ (p.op *ᵥ ψ))).sum - star ψ ⬝ᵥ v := by
+    rw [← h3]; ring
+  rw [h3']
+  ring
+
+/-- **C06.13 `list_model_refines_matrix_model`** the functions the driver executes (`listOps m`, matrices as
+    `List (List CRat)`, entries outside the lists read as `0`) are carried by `toM m` to the Mathlib-matrix instance the
+    theorems above are about — for the right-hand side, for `H_eff`, for *every* list input; so C06.6–C06.10 apply to
+    the executed model verbatim, e.g. the trace of the executed right-hand side is exactly `0` (third conjunct). -/
+theorem list_model_refines_matrix_model (m : Nat) (H ρ : CMat) (procs : List (Proc CMat)) :
+    toM m (lindbladOfProcs (listOps m) H procs ρ)
+        = lindbladOfProcs (matrixOps CRat.I ⟨1 / 2, 0⟩ CRat.ofRat) (toM m H) (procs.map (Proc.map (toM m))) (toM m ρ)
+    ∧ toM m (heffOfProcs (listOps m) H procs)
+        = heffOfProcs (matrixOps CRat.I ⟨1 / 2, 0⟩ CRat.ofRat) (toM m H) (procs.map (Proc.map (toM m)))
+    ∧ mtrace m (lindbladOfProcs (listOps m) H procs ρ) = 0 := by
+  have h1 : toM m (lindbladOfProcs (listOps m) H procs ρ)
+      = lindbladOfProcs (matrixOps CRat.I ⟨1 / 2, 0⟩ CRat.ofRat) (toM m H) (procs.map (Proc.map (toM m))) (toM m ρ) := by
+    unfold lindbladOfProcs
+    rw [lindbladRhs_hom (listOps_hom m), jumpOps_map]
+  refine ⟨h1, ?_, ?_⟩
+  · unfold heffOfProcs
+    rw [heff_hom (listOps_hom m), jumpOps_map]
+  · rw [← trace_toM, h1]
+    exact (lindblad_trace_preserving CRat.I ⟨1 / 2, 0⟩ (by decide +kernel) CRat.ofRat _ _ [] _).2
+
+/-! ### non-vacuity (Gaussian rationals, one qubit: `H = X`, lowering operator, a mixed and a pure state) -/
+
+section Examples
+
+def exI : CRat := CRat.I
+def exH : CRat := ⟨1 / 2, 0⟩
+def exRate : Rat → CRat := CRat.ofRat
+def exX : Matrix (Fin 2) (Fin 2) CRat := !![0, 1; 1, 0]
+def exLow : Matrix (Fin 2) (Fin 2) CRat := !![0, 1; 0, 0]
+def exRho : Matrix (Fin 2) (Fin 2) CRat := !![⟨1 / 4, 0⟩, ⟨0, 1 / 8⟩; ⟨0, -1 / 8⟩, ⟨3 / 4, 0⟩]
+
+/-- the scalar hypotheses of the theorems hold in the Gaussian rationals -/
+example : star exI = -exI ∧ exI * exI = -1 ∧ exH + exH = 1 ∧ star exH = exH := by decide +kernel
+
+example : ∀ q, star (exRate q) = exRate q := by
+  intro q; apply CRat.ext <;> simp [exRate]
+
+/-- …and in ℂ, with `i = Complex.I`, `h = 1/2` and the rational cast as `rate` -/
+example : star Complex.I = -Complex.I ∧ Complex.I * Complex.I = -1 ∧ (1 / 2 : ℂ) + 1 / 2 = 1 ∧ star (1 / 2 : ℂ) = 1 / 2
+    ∧ ∀ q : Rat, star (q : ℂ) = q := by
+  have hq : ∀ q : Rat, star (q : ℂ) = q := fun q => map_ratCast (starRingEnd ℂ) q
+  refine ⟨Complex.conj_I, Complex.I_mul_I, by norm_num, ?_, hq⟩
+  have : (1 / 2 : ℂ) = ((1 / 2 : Rat) : ℂ) := by norm_num
+  rw [this]
+  exact hq _
+
+/-- `X` and the state are Hermitian; the state is not diagonal -/
+example : exXᴴ = exX ∧ exRhoᴴ = exRho := by decide +kernel
+
+/-- a square root exists for `γ = 1/4` (`r = 1/2`, real) -/
+example : star (⟨1 / 2, 0⟩ : CRat) = ⟨1 / 2, 0⟩ ∧ (⟨1 / 2, 0⟩ : CRat) * ⟨1 / 2, 0⟩ = exRate (1 / 4) := by
+  decide +kernel
+
+/-- the filter is not trivial: of three listed processes (strengths 1/4, 0, -1) exactly the first survives -/
+example : (jumpOps [⟨1 / 4, exLow⟩, ⟨0, exX⟩, ⟨-1, exX⟩]).map (·.gamma) = [1 / 4] := by decide +kernel
+
+/-- a concrete value: amplitude damping of the excited population (entry (1,1) decreases at rate γ·ρ₁₁ plus the
+    coherent part) — the executable list model on the same data -/
+example : lindbladRhs (listOps 2) [[0, 1], [1, 0]] [⟨1 / 4, [[0, 1], [0, 0]]⟩]
+      [[⟨1 / 4, 0⟩, ⟨0, 1 / 8⟩], [⟨0, -1 / 8⟩, ⟨3 / 4, 0⟩]]
+    = [[⟨-1 / 16, 0⟩, ⟨0, -33 / 64⟩], [⟨0, 33 / 64⟩, ⟨1 / 16, 0⟩]] := by decide +kernel
+
+/-- the hypothesis of `mcwf_step_is_c01_lottery` is met by the abstract C01 process "lowering on site 0, γ = 1/2" with
+    `‖Lψ‖² = 16/25` -/
+example : Lottery.mcwfWeights (fun _ => 16 / 25) [⟨[0], 1 / 2, false, .mat []⟩]
+    = jumpWeights 2 [⟨1 / 2, [[0, 1], [0, 0]]⟩] [⟨3 / 5, 0⟩, ⟨4 / 5, 0⟩] := by decide +kernel
+
+/-- one MCWF pass with a non-trivial lottery: `ψ = (3/5, 4/5)`, lowering with `γ = 1/2` -/
+example : jumpWeights 2 [⟨1 / 2, [[0, 1], [0, 0]]⟩] [⟨3 / 5, 0⟩, ⟨4 / 5, 0⟩] = [8 / 25]
+    ∧ mcwfStepDist 2 [⟨1 / 2, [[0, 1], [0, 0]]⟩] [⟨3 / 5, 0⟩, ⟨4 / 5, 0⟩] [⟨3 / 5, 0⟩, ⟨3 / 4, 0⟩]
+      = [(369 / 400, Lottery.Branch.noJump), (31 / 400, Lottery.Branch.jump 0)] := by decide +kernel
+
+end Examples
+
+end Yaqs.MasterEq
